@@ -233,10 +233,7 @@ def r2(report, db, cg, S, M, type_ci, packet_ci):
         top = p.events
         li = [i for i, e in enumerate(top) if e.kind == 'loop' and any(
             id(x.node) in raw for q in e.paths for x in q.flat(('call',)))]
-        dec = [i for i, e in enumerate(top) if e.kind == 'call'
-               and e.method() == 'read' and any(
-                   t.name == 'read' and t.cls is not None
-                   and t.cls.name == 'Packet' for t in (e.targets or ()))]
+        dec = [i for i, e in enumerate(top) if shared.is_packet_decode(e)]
         ndec += len(dec)
         if not li or any(i < li[0] for i in dec) or any(
                 n_[0] == 'left-by-break' and n_[1] is top[li[0]].node
